@@ -42,35 +42,35 @@ CLAIMS = {
                 text="fragment: partition policy kernels. ReadMasterAssignment::retrieveMaster over a symbolic contiguous gid2host partition (every gid exactly one master < H, H<=4); getEdgeOwner of NoCommunication, GenericHVC, GenericCVC, GenericCVCColumnFlip (owner < H, grid row/column as documented); factorizeHosts (rows*cols == H, H<=16).",
                 note="The partitioner itself (NewGeneric.h / DistributedGraph.h: edges shipped over MPI, CSR construction from files, id maps, mirror lists) cannot be encoded and is not claimed; sqrt is a table of correctly rounded values for 0..16."),
     "C11": dict(tech=TECH, ref="DESIGN.md section 3 C11 and section 7",
-                text="symbolic input graphs (every out-index shape with <=3 nodes and <=3 edges in the quick tier, 4 edges in the thorough tier; destinations, edge data and lookup keys symbolic; self loops, parallel edges, isolated and trailing edge-less nodes included) are built through the real FileGraph and handed to the real graph constructors on one modelled thread: LC_CSR_Graph (three construction paths), LC_CSR_CSC_Graph, LC_InOut_Graph, LC_Linear_Graph, LC_InlineEdge_Graph enumerate exactly the input in file order; transpose, sortAllEdgesByDst, sortEdgesByEdgeData, findEdge, findEdgeSortedByDst (incl. no access outside [0,numEdges)), local node ranges.",
-                note="The out-index is enumerated (56 shapes), not symbolic; do_all/on_each run their body once on thread 0 (Loops.h cut); LargeArray/mmap are zero-filled malloc blocks (page size scaled to 128 bytes for the layouts that round). Multi-thread construction, LC_Morph_Graph, LC_Adaptor_Graph, LC_CSR_Hypergraph, in-edge sorting are outside."),
+                text="symbolic input graphs (every out-index shape with <=3 nodes and <=3 edges in the quick tier, 4 edges in the thorough tier; destinations, edge data and lookup keys symbolic; self loops, parallel edges, isolated and trailing edge-less nodes included) are built through the real FileGraph and handed to the real graph constructors on one modelled thread: LC_CSR_Graph (three construction paths), LC_CSR_CSC_Graph, LC_InOut_Graph, LC_Linear_Graph, LC_InlineEdge_Graph enumerate exactly the input in file order; transpose, sortAllEdgesByDst, sortEdgesByEdgeData, findEdge, findEdgeSortedByDst (incl. no access outside [0,numEdges)), local node ranges; the same enumeration after construction by TWO threads run one after the other in either order (CSR, InlineEdge, Linear); the edge-sort proxy protocol (swap/iter_swap, value read/write, reference assignment move (destination,data) pairs).",
+                note="The out-index is enumerated (56 shapes), not symbolic; do_all/on_each run their body once on thread 0 (Loops.h cut); LargeArray/mmap are zero-filled malloc blocks (page size scaled to 128 bytes for the layouts that round). Interleaved multi-thread construction, sorts of more than 4 edges as a whole (only the proxy protocol), LC_Morph_Graph, LC_Adaptor_Graph, LC_CSR_Hypergraph, in-edge sorting are outside."),
     "C01": dict(tech=TECH, ref="DESIGN.md section 3 C01 and section 7",
-                text="compositional, one modelled worker: work conservation (pop returns only what was pushed and not yet popped, nothing stranded after flush/drain, nothing twice) for ChunkFIFO/LIFO, PerSocketChunkFIFO/LIFO/Bag, PerThreadChunkFIFO/LIFO (incl. steal attempts on an idle peer), GFIFO/GLIFO/FIFO/LIFO over the real gdeque/std::deque, LocalQueue, OwnerComputes, StableIterator, BulkSynchronous, OBIM (BSP / barrier) on operation sequences with symbolic payloads; AbortHandler forwarding policies over a SYMBOLIC topology (8 threads, <=4 sockets, symbolic activeThreads/tid/retries): exactly one queue receives the item, its index < activeThreads; one iteration of the real ForEachExecutor (commit, voluntary abort, conflict via the real setjmp/longjmp path, retry from the abort queue, no-conflict mode): on commit exactly the pushes become work, on abort the worklist is unchanged, the abort queue holds the item, the push buffer is empty, no lockable is owned.",
-                note="PtrLock is replaced by a two-field model (same interface, lock discipline checked) in the one-worker units because CBMC cannot fold a pointer through (uintptr_t)p|1; OBIM bucket index is constant per operation kind; multi-worker interleavings of the executor, the deterministic executor (C07) and loop exit (C04) are outside."),
+                text="compositional, one modelled worker: work conservation (pop returns only what was pushed and not yet popped, nothing stranded after flush/drain, nothing twice) for ChunkFIFO/LIFO, PerSocketChunkFIFO/LIFO/Bag, PerThreadChunkFIFO/LIFO (incl. steal attempts on an idle peer, and a victim/thief pair whose whole operations alternate: stealAllAndPop across sockets, stealHalfAndPop within a socket, more than one chunk prepended), GFIFO/GLIFO/FIFO/LIFO over the real gdeque/std::deque, LocalQueue, OwnerComputes, StableIterator, BulkSynchronous, OBIM (BSP / barrier) on operation sequences with symbolic payloads; AbortHandler forwarding policies over a SYMBOLIC topology (8 threads, <=4 sockets, symbolic activeThreads/tid/retries): exactly one queue receives the item, its index < activeThreads; one iteration of the real ForEachExecutor (commit, voluntary abort, conflict via the real setjmp/longjmp path, retry from the abort queue, no-conflict mode): on commit exactly the pushes become work, on abort the worklist is unchanged, the abort queue holds the item, the push buffer is empty, no lockable is owned.",
+                note="PtrLock is replaced by a two-field model (same interface, lock discipline checked) in the one-worker units because CBMC cannot fold a pointer through (uintptr_t)p|1; OBIM bucket index is constant per operation kind; the set-up part of ForEachExecutor::go() (which hooks it installs: the fast push-back hook) is NOT covered - the pieces are driven with the hooks the unchanged go() installs (a seeded change there is not detected, DESIGN.md 7.6); multi-worker interleavings of the executor, the deterministic executor (C07) and loop exit (C04) are outside."),
     "C07": dict(tech=TECH, ref="DESIGN.md section 3 C07 and section 7",
                 text="fragment: the mechanism that makes the commit set a function of ids - DeterministicContextBase<Options,false,false>::alwaysAcquire (lowest id wins, loser is disabled) over the real Lockable / PtrLock::stealing_CAS: for 3 iterations with symbolic distinct ids and symbolic mark subsets over 2 lockables, in every enumerated ORDER of the marks, the owner of each lockable is the smallest-id iteration that marked it and an iteration is ready iff it has the smallest id on every lockable it marked.",
                 note="Marking operations are atomic here (orders, not intra-operation interleavings); id assignment and merge of new work (NewWorkManager), DAG mode, intent-to-read, local state, deterministic break, window arithmetic and the end-to-end 'bit-identical across thread counts' statement are outside and not claimed."),
     "C08": dict(tech=TECH, ref="DESIGN.md section 3 C08 and section 7",
-                text="fragment, one modelled worker: BulkSynchronous over ChunkFIFO - every popped item belongs to the oldest round that still has queued work, conservation (programs of up to 4 rounds); OBIM with the barrier option, ascending and descending - pop does not leave a non-empty level, otherwise takes the most urgent queued level, monotone programs pop level-sorted, empty() exactly when nothing is queued; back-scan prevention post-condition after every push (scanStart <= i and <= curIndex) with and without barrier.",
-                note="The two-or-more-worker behaviour around the level switch (the leader/non-leader asymmetry, empty() agreement across threads), AdaptiveObim and aborts combined with these schedulers are outside; PtrLock model as in C01."),
+                text="fragment, one modelled worker: BulkSynchronous over ChunkFIFO - every popped item belongs to the oldest round that still has queued work, conservation (programs of up to 4 rounds); OBIM with the barrier option, ascending and descending - pop does not leave a non-empty level, otherwise takes the most urgent queued level, monotone programs pop level-sorted, empty() exactly when nothing is queued; back-scan prevention post-condition after every push (scanStart <= i and <= curIndex) with and without barrier; level alignment in empty() with TWO threads' proposals (the caller ends on the most urgent proposed level in the comparator's order).",
+                note="Interleaved two-or-more-worker behaviour around the level switch (the leader/non-leader asymmetry; in the alignment obligation the second thread's proposal is written as its empty() writes it), AdaptiveObim and aborts combined with these schedulers are outside; PtrLock model as in C01."),
     "C16": dict(tech=TECH, ref="DESIGN.md section 3 C16 and section 7",
-                text="with the guarded hook shrinking the serial cut-off and block size to 1-3: dual_partition (two ranges of <=3 symbolic booleans), partition_helper_state step contracts, partition_helper for one worker (and two workers run in sequence) followed by the tail of partition() on arrays of <=7 symbolic predicate bits (valid partition point, permutation, no access outside the range), one sort_helper step with an arbitrary pivot, count_if / accumulate / map_reduce / find_if / partial_sum (incl. empty trailing blocks) / destroy end to end on <=6 elements with 1..3 modelled threads.",
+                text="with the guarded hook shrinking the serial cut-off and block size to 1-3: dual_partition (two ranges of <=3 symbolic booleans), partition_helper_state step contracts, partition_helper for one worker (and two workers run in sequence) followed by the tail of partition() on arrays of <=7 symbolic predicate bits (valid partition point, permutation, no access outside the range), one sort_helper step with an arbitrary pivot, progress of the sort (for every input range some pivot draw shrinks every pushed sub-range), count_if / accumulate / map_reduce / find_if / partial_sum (incl. empty trailing blocks) / destroy end to end on <=6 elements with 1..3 modelled threads.",
                 note="Hook: GALOIS_PSTL_CUTOFF / GALOIS_PSTL_BLOCK (MANIFEST.hooks). End-to-end sort() (std::sort over solver-dependent bounds did not finish), interleaved partition helpers, and the real ForEach/do_all executors (harness stand-ins, listed in the evidence) are outside."),
     "C03": dict(tech=TECH_CONC, ref="DESIGN.md section 3 C03 and section 7",
-                text="sequential step contracts of the stealing do_all ThreadContext (getWork / stealWork HALF and FULL / assignWork / transferWork from an arbitrary consistent pre-state, chunk size symbolic 1..4096, counting and pointer iterators): returned piece and remainder are disjoint and cover the old range; the real ThreadPool::cascade() wake-up tree for every num<=16 wakes each thread 1..num-1 exactly once with wbegin<=wend; (thorough tier) the fast-mode fork/join protocol with T=3 over two regions as a step machine.",
-                note="The per-thread pieces of Range.h are C13. The interleaved stealing executor, the mutex/condition-variable mode of the pool, runDedicated and on_each over the real pool are outside; the fork/join obligation is thorough-tier only (formula size)."),
+                text="sequential step contracts of the stealing do_all ThreadContext (getWork / stealWork HALF and FULL / assignWork / transferWork from an arbitrary consistent pre-state, chunk size symbolic 1..4096, counting and pointer iterators): returned piece and remainder are disjoint and cover the old range; the real ThreadPool::cascade() wake-up tree for every num<=16 wakes each thread 1..num-1 exactly once with wbegin<=wend; the two halves of a parallel region as step machines under a solver-chosen schedule (fork: master writes, cascade(); worker wait() in fast mode and in the mutex/condition-variable mode; join: decascade() of the master and of 1-2 workers): a woken thread sees its mailbox range, the master leaves decascade() only after every thread it woke has finished, no deadlock.",
+                note="The per-thread pieces of Range.h are C13. The interleaved stealing executor, a whole region in one obligation (out of memory, tier=attic), runDedicated and on_each over the real pool are outside."),
     "C05": dict(tech=TECH_CONC, ref="DESIGN.md section 3 C05 and section 7",
-                text="the real wait() bodies of CountingBarrier, MCSBarrier, DisseminationBarrier (state built by the real constructors/reinit) run as step machines under a solver-chosen schedule: no thread returns from its k-th wait before every participant entered it, every thread returns (deadlock probe + step-bound assertion), reuse over 2-3 phases, reinit to a different participant count between regions, T=1.",
-                note="T=2 in the quick tier, T=3 and the plain-accesses-visible variant in the thorough tier; SC values only. TopoBarrier, SimpleBarrier (mutex/condvar) and PthreadBarrier are not yet encoded."),
+                text="the real wait() bodies of CountingBarrier, MCSBarrier, DisseminationBarrier, TopoBarrier (over the real per-thread/per-socket storage, topologies {0,0} and {0,1}; T=3 with 5 topologies in the thorough tier) and SimpleBarrier (mutex/condition-variable contract models, one phase) (state built by the real constructors/reinit) run as step machines under a solver-chosen schedule: no thread returns from its k-th wait before every participant entered it, every thread returns (deadlock probe + step-bound assertion), reuse over 2-3 phases, reinit to a different participant count between regions, T=1.",
+                note="T=2 in the quick tier, T=3 and the plain-accesses-visible variant in the thorough tier; SC values only. PthreadBarrier (a libc object) is not encoded."),
     "C06": dict(tech=TECH_CONC, ref="DESIGN.md section 3 C06 and section 7",
-                text="SimpleLock lock()/try_lock()/unlock() under all schedules of T=2 (T=3 thorough) x 2 acquisitions: at most one holder, every requester admitted, no deadlock; the release->acquire edge is a happens-before edge for a plain payload under ghost vector clocks that honour the memory orders found in the IR (weakening unlock() to relaxed is reported).",
-                note="PtrLock, PaddedLock, ThreadRWlock and the other promised edges (lockable hand-over is checked in C02; barrier, parallel-region entry/return, worklist push/pop) are not yet encoded; starvation freedom is not decidable by a bounded check."),
+                text="SimpleLock lock()/try_lock()/unlock() under all schedules of T=2 (T=3 thorough) x 2 acquisitions: at most one holder, every requester admitted, no deadlock; the release->acquire edge is a happens-before edge for a plain payload under ghost vector clocks that honour the memory orders found in the IR (weakening unlock() to relaxed is reported); an asymmetric 1+3 acquisition run (a slow-path waiter that loses a compare-exchange meets a re-acquired lock); entry to and return from a parallel region (fastRelease / done flags, unit C06_forkjoin = C03_join): data written by the master before the region is visible to the woken thread, data written by a worker in the region is visible to the master after decascade(), under the memory orders in the code.",
+                note="PtrLock, PaddedLock, ThreadRWlock and the remaining promised edges (lockable hand-over is checked in C02; barrier arrival->departure and worklist push->pop are checked for values under SC only, not with clocks) are not encoded; starvation freedom is not decidable by a bounded check."),
     "C02": dict(tech=TECH_CONC, ref="DESIGN.md section 3 C02 and section 7",
-                text="ownership protocol over the real Context.cpp / PtrLock (tryAcquire, acquire, signalConflict via the longjmp model, commitIteration, cancelIteration) with T=2 contexts (T=3 thorough), 2 lockables, 2 acquire() calls each with symbolic target and flag: never two owners (ghost owner stamps), ALREADY_OWNER only for the true owner, commit/abort frees everything, nothing left owned, hand-over of object data is happens-before; flag semantics (UNPROTECTED/PREVIOUS never touch the owner word).",
-                note="The serial-equivalence conclusion for cautious operators is the textbook consequence and is argued, not mechanised; executor-level discard of pushes/allocations on abort belongs to C01's executor obligation."),
+                text="ownership protocol over the real Context.cpp / PtrLock (tryAcquire, acquire, signalConflict via the longjmp model, commitIteration, cancelIteration) for 2 contexts and 2 lockables over every sequence of three WHOLE operations (acquire with symbolic target/flag, commit, cancel; operations alternate, they do not interleave): never two owners (ghost owner stamps), ALREADY_OWNER only for the true owner, commit/abort frees everything, nothing left owned, hand-over of object data is happens-before; flag semantics (UNPROTECTED/PREVIOUS never touch the owner word).",
+                note="The serial-equivalence conclusion for cautious operators is the textbook consequence and is argued, not mechanised; interleavings INSIDE tryAcquire/release (out of memory at 16 GB, tier=attic) are not covered; executor-level discard of pushes/allocations on abort belongs to C01's executor obligation."),
     "C04": dict(tech=TECH_CONC, ref="DESIGN.md section 3 C04 and section 7",
-                text="the real ring (LocalTerminationDetection) and tree (TreeTerminationDetection) detectors inside the loop skeleton of ForEachExecutor::go() with an abstract work ledger: termination is never observed while the pool holds work, a thread holds work or has unreported work (all schedules, T=2; T=3 thorough); once everybody is idle a bounded number of round-robin idle reports announces termination; re-arming with a different thread count.",
-                note="<=2 report rounds per thread, <=3 work units; SC values (the tree detector's volatile tokens are scheduling points but carry no happens-before claim); fairness-based liveness is outside."),
+                text="the real ring detector (LocalTerminationDetection) inside the loop skeleton of ForEachExecutor::go() with an abstract work ledger: termination is never observed while the pool holds work, a thread holds work or has unreported work (all schedules, T=2 with 2 report rounds per thread; thorough: T=3, and T=2 with 4+3 report rounds - the shortest histories in which the detector can announce at all); once everybody is idle a bounded number of round-robin idle reports announces termination; re-arming with a different thread count.",
+                note="<=3 work units; SC values; TreeTerminationDetection is NOT covered (out of memory at 15 GB, tier=attic); fairness-based liveness is outside."),
 }
 
 NOT_YET = "check not built yet in this round (planned in DESIGN.md section 3); no claim is made"
